@@ -267,6 +267,16 @@ def generate(seed, tier):
                        [["t", [["r", "s0"], t, ["r", "s0"]]]]]]
             terms.append(shared)
             terms.append(spec.expand(shared))
+    deep_term = None
+    if r.random() < 0.15:
+        # a deep chain: the only kind of expression on which the stack can run out mid-hash
+        t = ["n", "Variable", [["s", "x"]]]
+        for lvl in range(r.randint(40, 120)):
+            kcls = r.choice(["Sum", "Product", "Power", "Quotient"])
+            t = (["n", kcls, [["t", [t, ["i", lvl % 5]]]]] if kcls in ("Sum", "Product")
+                 else ["n", kcls, [t, ["i", 2 + lvl % 3]]])
+        deep_term = t
+        terms.append(t)
     cterms = []
     for _ in range(r.randint(0, 2)):
         t = ga.term(0)
@@ -303,7 +313,8 @@ def generate(seed, tier):
             ops.append(["build", n, h, t])
             have[n].append(h)
         elif x < 0.30 and have[n]:
-            ops.append(["hash", n, r.choice(have[n])])
+            ops.append(["hash", n, r.choice(have[n])]
+                       + ([r.randint(5, 150)] if deep_term is not None and r.random() < 0.5 else []))
         elif x < 0.45 and have[n]:
             m = f"m{len(msgs)}"
             ops.append(["dumps", n, r.choice(have[n]), r.randint(0, 5), m]
@@ -387,6 +398,19 @@ def generate(seed, tier):
             h = newh()
             ops.append(["build", n, h, ["fresh", "none"]])
             have[n].append(h)
+    if deep_term is not None:
+        # its first hash on some node happens with little stack left; it is looked up afterwards
+        for _ in range(r.randint(1, 2)):
+            n = r.randrange(nn)
+            h = newh()
+            seq = [["build", n, h, deep_term], ["hash", n, h, r.randint(5, 60)], ["lookup", n, h]]
+            if r.random() < 0.5:
+                m = f"m{len(msgs)}"
+                msgs.append(m)
+                n2 = r.randrange(nn)
+                seq += [["dumps", n, h, r.randint(0, 5), m], ["loads", n2, m, newh()]]
+            at = r.randint(0, len(ops))
+            ops[at:at] = seq
     return {"config": {"nodes": nodes}, "ops": ops}
 
 # }}}
@@ -530,6 +554,13 @@ def execute(scenario, open_sigs):
                 r = rq(n, {"op": "build", "h": h, "term": t})
                 if r is not None:
                     handle_term[(n, h)] = t
+            elif k == "hash" and len(op) > 3:
+                if (n, op[2]) in handle_term:
+                    r = rq(n, {"op": "hash", "h": op[2], "frames": op[3]})
+                    if r is not None and r.get("exhausted"):
+                        faults["stack_exhaustion"] = faults.get("stack_exhaustion", 0) + 1
+                    elif r is not None:
+                        hashed.add((n, op[2]))
             elif k == "hash":
                 if (n, op[2]) in handle_term and rq(n, {"op": "hash", "h": op[2]}) is not None:
                     hashed.add((n, op[2]))
